@@ -509,6 +509,9 @@ def parse_args(sig, args):
             s1, s2 = args.split(",", 1)
             inst = parse_inst(s2)
             return s1, inst
+        elif sig == Tuple[str, Term, Term]:
+            s1, s2, s3 = args.split(",", 2)
+            return s1, parse_term(s2), parse_term(s3)
         elif sig == List[Term]:
             return parse_term_list(args)
         else:
